@@ -69,6 +69,8 @@ func c10(w *core.World, r *core.Report) {
 	ruleCommandNameLowercased(w, r)
 	r.Rule("R10.16", "merging configured slot ranges is a union: both bounds extended independently", 2)
 	ruleRangeMergeIsUnion(w, r)
+	r.Rule("R10.18", "the rebuilt slot list has storage of its own, or is written no faster than the stored ranges are read: no configured range is overwritten before it was read", 1)
+	ruleRebuiltListStorage(w, r)
 }
 
 // ---------------------------------------------------------------- R10.1
